@@ -9,7 +9,7 @@ git log --format='%h %s' | grep ' fix:' | while read h rest; do
     *"bloom filter"*) id=C14;; *"count-min sketch"*) id=C13;; *"collides with a resident key"*) id=C06;;
     *"try_update dropped"*) id=C05;; *"swept only the bucket"*) id=C05;; *"left the expiration buckets"*) id=C11;;
     *"without TTL as expired"*) id=C03;; *"overwrote the resident entry"*) id=C16;;
-    *"drain of the insert buffer is bounded"*) id=C12;; *"get_ttl reads the deadline"*) id=C03;; *"beyond the representable range"*) id=C20;; *"sums its stripes with wrapping"*) id=C10;;
+    *"drain of the insert buffer is bounded"*) id=C12;; *"get_ttl reads the deadline"*) id=C03;; *"beyond the representable range"*) id=C20;; *"sums its stripes with wrapping"*) id=C10;; *"Wait marker releases its waiter"*) id=C10;;
   esac
   [ -z "$id" ] && continue
   git diff $h $h~1 -- src > /var/tmp/revert-$h.diff
